@@ -82,36 +82,45 @@ theorem doList_indep_of_rev {c1 c2 : Cfg} (hp : c1.pfx = c2.pfx) (hs : c1.splits
   doList_congr (fun _ => scanLimited_congr hp ht (iterate_zero_of_rev hr _ _ _))
     (fun _ => scanParts_congr hp hs ht (fun _ _ _ _ => iterate_zero_of_rev hr _ _ _))
 
+/-- Range reads agree, whatever the engines' choices, when every iteration is ascending — for ARBITRARY bounds:
+the encoded bounds of a proper raw interval never run backwards (`encodeBound_mono`, /repo 23c8b93), so only the
+(adjusted) partitions have to be ascending. -/
+theorem doList_indep_of_ascending' {c1 c2 : Cfg} (hp : c1.pfx = c2.pfx) (hs : c1.splits = c2.splits)
+    (ht : c1.q.supportTTL = c2.q.supportTTL) (s : BState) (a b : Bytes)
+    (hasc : ∀ parts, scanPartitions c1 (encodeBound a) (encodeBound b) = some parts → ∀ p ∈ parts, cmp p.1 p.2 ≠ .gt)
+    (R n : Nat) : doList c1 s a b R n = doList c2 s a b R n := by
+  refine doList_congr (fun hab => ?_) (fun _ => ?_)
+  · exact scanLimited_congr hp ht (iterate_zero_of_not_gt _ _ _ (encodeBound_mono hab))
+  · exact scanParts_congr hp hs ht (fun parts hsp p hpm => iterate_zero_of_not_gt _ _ _ (hasc parts hsp p hpm))
+
 /-- Range reads agree, whatever the engines' choices, when every iteration is ascending: bounds
 over the alphabet and no (adjusted) partition runs backwards. -/
 theorem doList_indep_of_ascending {c1 c2 : Cfg} (hp : c1.pfx = c2.pfx) (hs : c1.splits = c2.splits)
     (ht : c1.q.supportTTL = c2.q.supportTTL) (s : BState) {a b : Bytes} (ha : Alphabet a) (hb : Alphabet b)
     (hasc : ∀ parts, scanPartitions c1 (encode a 0) (encode b 0) = some parts → ∀ p ∈ parts, cmp p.1 p.2 ≠ .gt)
     (R n : Nat) : doList c1 s a b R n = doList c2 s a b R n := by
-  refine doList_congr (fun hab => ?_) (fun _ => ?_) <;>
-    rw [encodeBound_of_alphabet ha, encodeBound_of_alphabet hb]   -- bounds over the alphabet: the index keys, as before
-  · have hne : a ≠ b := by intro e; rw [e] at hab; simp at hab
-    have hlt : cmp (encode a 0) (encode b 0) = .lt := by
-      rw [encode_cmp ha hb (by decide) (by decide)]; simp [hne, hab]
-    exact scanLimited_congr hp ht (iterate_zero_of_not_gt _ _ _ (by rw [hlt]; decide))
-  · exact scanParts_congr hp hs ht (fun parts hsp p hpm => iterate_zero_of_not_gt _ _ _ (hasc parts hsp p hpm))
+  refine doList_indep_of_ascending' hp hs ht s a b ?_ R n
+  rw [encodeBound_of_alphabet ha, encodeBound_of_alphabet hb]   -- bounds over the alphabet: the index keys, as before
+  exact hasc
 
-/-- ... in particular on an engine with a single partition. -/
-theorem doList_indep_single {c1 c2 : Cfg} (hp : c1.pfx = c2.pfx) (hs : c1.splits = c2.splits)
-    (ht : c1.q.supportTTL = c2.q.supportTTL) (hsplit : c1.splits = []) (s : BState) {a b : Bytes}
-    (ha : Alphabet a) (hb : Alphabet b) (R n : Nat) : doList c1 s a b R n = doList c2 s a b R n := by
+/-- ... in particular on an engine with a single partition — for ARBITRARY bounds. -/
+theorem doList_indep_single' {c1 c2 : Cfg} (hp : c1.pfx = c2.pfx) (hs : c1.splits = c2.splits)
+    (ht : c1.q.supportTTL = c2.q.supportTTL) (hsplit : c1.splits = []) (s : BState) (a b : Bytes)
+    (R n : Nat) : doList c1 s a b R n = doList c2 s a b R n := by
   by_cases hab : cmp a b = .lt
-  · refine doList_indep_of_ascending hp hs ht s ha hb ?_ R n
+  · refine doList_indep_of_ascending' hp hs ht s a b ?_ R n
     intro parts hsp p hpm
     rw [scanPartitions_single hsplit] at hsp
     cases hsp
-    have hne : a ≠ b := by intro e; rw [e] at hab; simp at hab
-    have hlt : cmp (encode a 0) (encode b 0) = .lt := by
-      rw [encode_cmp ha hb (by decide) (by decide)]; simp [hne, hab]
     simp only [List.mem_singleton] at hpm
     subst hpm
-    rw [hlt]; decide
+    exact encodeBound_mono hab
   · simp [doList, hab]
+
+theorem doList_indep_single {c1 c2 : Cfg} (hp : c1.pfx = c2.pfx) (hs : c1.splits = c2.splits)
+    (ht : c1.q.supportTTL = c2.q.supportTTL) (hsplit : c1.splits = []) (s : BState) {a b : Bytes}
+    (_ha : Alphabet a) (_hb : Alphabet b) (R n : Nat) : doList c1 s a b R n = doList c2 s a b R n :=
+  doList_indep_single' hp hs ht hsplit s a b R n
 
 /-- the shape of the C12 statement for range reads, on equal results -/
 theorem listRes_match_self (x : ScanRes ListRes) :
